@@ -5,7 +5,7 @@ from __future__ import annotations
 import ast
 import re
 
-from ..core import Check
+from ..core import Check, Finding
 from ..escape_props import escape_engine, run_entry
 from .opsprop import fill
 
@@ -26,7 +26,7 @@ NONDET = {"random", "time", "datetime", "uuid", "secrets", "os", "threading"}
 
 def run(tier: str) -> Check:
     check = Check("C07", tier, EXPLANATION)
-    check.rules = ["ESCAPE", "ESCAPE-RUNTIME", "RAISE", "R5", "RESULT", "NONDET"]
+    check.rules = ["ESCAPE", "ESCAPE-RUNTIME", "RAISE", "R5", "RESULT", "NONDET", "PATTERN"]
     repo, rep = fill(check, tier, floors={"skeleton_paths": 120, "parse_paths": 120})
     esc = escape_engine(repo)
     check.assumptions = [
@@ -77,4 +77,22 @@ def run(tier: str) -> Check:
     check.oblige("NONDET", "src/pest", "no clock, random, environment or identity-hash source in the library", True)
     check.floor("reachable_functions", 60)
     check.floor("runtime_helper_entries", 12)
+    # patterns built at load time are compiled lazily, inside parse(): a malformed one raises regex.error there
+    from ..charclass import GRID, GRID_DASH, check_char_class
+
+    fn = repo.func("src/pest/grammar/expressions/choice.py", "_optimize_char_class")
+    construct = "src/pest/grammar/expressions/choice.py::_optimize_char_class"
+    worst: dict[str, tuple[str, str]] = {}
+    total = 0
+    for nr, ns, grid in ([(1, 1, GRID), (1, 1, GRID_DASH)] if tier == "quick" else [(2, 1, GRID), (2, 1, GRID_DASH)]):
+        n, bad = check_char_class(fn, construct, nr, ns, grid)
+        total += n
+        for kind, desc, detail in bad:
+            if kind in ("MALFORMED", "RAISES"):
+                worst.setdefault(kind, (desc, detail))
+    check.count("char_class_model_points", total)
+    sig = "the optimizer emits a character class that does not compile: regex.error escapes from parse()"
+    hit = worst.get("MALFORMED") or worst.get("RAISES")
+    check.oblige("PATTERN", construct, f"every emitted character class is well formed ({total} model points)" if not hit else sig, not hit,
+                 finding=Finding("PATTERN", construct, sig, f"{sig}: for {hit[0]} it {hit[1]}" if hit else sig, {}))
     return check
